@@ -16,6 +16,7 @@ fn main() {
         "C12" => engines::c11::main_c12(&args),
         "C11child" => engines::c11::child_c11(),
         "C12child" => engines::c11::child_c12(),
+        "C11twochild" => engines::c11two::child_main(),
         "C26" => engines::c26::main(&args),
         "C26child" => engines::c26::child_main(),
         "C21" => engines::c21::main(&args),
